@@ -79,7 +79,11 @@ func genExText(t *rapid.T) []byte {
 		}
 		return []byte(sb.String())
 	default: // the generic secret generator (sentinels, junk, long, bytes)
-		return genSecret(t)
+		b := genSecret(t)
+		if len(b) > 4096 { // long secrets are the compose check's business; keep this one fast
+			b = b[:4096]
+		}
+		return b
 	}
 }
 
@@ -494,7 +498,7 @@ func runExC(cEx *vt.C, s ExScript) (bool, string, *vt.Finding) {
 }
 
 func TestExpand(t *testing.T) {
-	vt.Run(t, cEx, vt.N(15000, 1200000), genEx, runEx)
+	vt.Run(t, cEx, vt.N(15000, 600000), genEx, runEx)
 }
 
 // TestExpandSweep: every YAML-typed text x every reference mode into the basic
